@@ -170,6 +170,96 @@ class CumSpace(Subspace):
         return res
 
 
+class LongCumSpace(Subspace):
+    """Boundary family for per-group running state: two interleaved groups of S and S+3 rows around the
+    8- and 16-bit limits x key kinds with narrow group codes (int8: small categoricals, boolean keys;
+    int16: 200 categories) x narrow value dtypes (running sums beyond the input width).  Linear-time
+    reference with exact Python integers."""
+    shard = 1
+
+    def __init__(self, tier, seed=0):
+        self.name = "long-groups"
+        q = tier == "quick"
+        small = (129, 257) if q else (127, 128, 129, 255, 256, 257, 300)
+        big = (32769,) if q else (32767, 32768, 32769, 65537)
+        self.cells = [(S, kk, vd) for S in small for kk in ("cat8", "bool", "int") for vd in ("f8", "i1", "u1")]
+        self.cells += [(S, kk, vd) for S in big for kk, vd in (("cat16", "f8"), ("cat8", "i1"), ("bool", "u1"))]
+
+    def size(self):
+        return len(self.cells)
+
+    def warm_indices(self, n):
+        return (0, 1, 2)
+
+    def case(self, i):
+        S, kk, vd = self.cells[i]
+        return dict(S=S, keykind=kk, vdtype=vd)
+
+    def run(self, case):
+        from groupby_lib import GroupBy
+
+        res = Result()
+        res.nontrivial = True
+        S, kk, vd = case["S"], case["keykind"], case["vdtype"]
+        n = 2 * S + 3
+        codes = (np.arange(n) % 2).astype(np.int64)
+        codes[-3:] = 1
+        if kk == "cat8":
+            keys = pd.Categorical.from_codes(codes.astype("i1"), categories=["a", "b", "c"])
+        elif kk == "cat16":
+            keys = pd.Categorical.from_codes(codes.astype("i2"), categories=[f"c{i:03d}" for i in range(200)])
+        elif kk == "bool":
+            keys = codes.astype(bool)
+        else:
+            keys = codes + 10
+        if vd == "f8":
+            vals = ((np.arange(n) * 7) % 11 - 5).astype("f8")
+        elif vd == "i1":
+            vals = ((np.arange(n) * 7) % 11 - 3).astype("i1")
+        else:
+            vals = ((np.arange(n) * 7) % 13 + 200).astype("u1")
+        py = vals.tolist()
+        seams = env.seams()
+        seams.set(executor=sched.NAMESPACE)
+        sched.set_schedule(sched.Schedule())
+        for mname, mask in (("none", None), ("periodic", (np.arange(n) % 4 != 1))):
+            state = {}
+            exp = {op: [None] * n for op in ("cumsum", "cummin", "cummax", "cumcount")}
+            for i in range(n):
+                if mask is not None and not mask[i]:
+                    continue
+                st = state.setdefault(int(codes[i]), dict(s=0, lo=None, hi=None, c=0))
+                v = py[i]
+                st["s"] += v
+                st["lo"] = v if st["lo"] is None else min(st["lo"], v)
+                st["hi"] = v if st["hi"] is None else max(st["hi"], v)
+                exp["cumsum"][i], exp["cummin"][i], exp["cummax"][i], exp["cumcount"][i] = \
+                    st["s"], st["lo"], st["hi"], st["c"]
+                st["c"] += 1
+            for op in ("cumsum", "cummin", "cummax", "cumcount"):
+                res.execs += 1
+                tag = f"{op} group sizes {S}/{S + 3} {kk} keys {vd} values mask={mname}"
+                try:
+                    g = GroupBy(keys)
+                    out = g.cumcount(mask=mask) if op == "cumcount" else getattr(g, op)(vals, mask=mask)
+                    got = np.asarray(out)
+                except Exception as e:  # noqa
+                    res.fail("total", f"{tag}: raised {type(e).__name__}: {str(e)[:100]}")
+                    continue
+                if len(got) != n:
+                    res.fail("values", f"{tag}: {len(got)} rows for {n}")
+                    continue
+                for i in range(n):
+                    if exp[op][i] is not None and not (float(got[i]) == float(exp[op][i])):
+                        res.fail("values", f"{tag}: row {i} (the group's row {i // 2}): expected "
+                                           f"{exp[op][i]} got {got[i]}")
+                        break
+                if op in ("cummin", "cummax") and vd != "f8" and got.dtype.kind not in "iu":
+                    res.fail("dtype", f"{tag}: {vals.dtype} in, {got.dtype} out")
+        seams.reset()
+        return res
+
+
 def subspaces(tier, seed):
     q = tier == "quick"
     S = CumSpace
@@ -185,4 +275,5 @@ def subspaces(tier, seed):
     sp.append(S(f"f8-chunkwise-n1to{h}", 2 if q else 3, 1, h, rep="chunkwise", seed=seed))
     sp.append(S(f"M8[ns]-chunkwise-n1to{h}", 2, 1, h, vdtype="M8[ns]", rep="chunkwise", seed=seed))
     sp.append(S(f"i8big-strkeys-n1to{h}", 2, 1, h, vdtype="i8big", keykind="str_obj", seed=seed))
+    sp.append(LongCumSpace(tier, seed))
     return sp
